@@ -86,6 +86,7 @@ type loopCtx struct {
 	discover *discoverCtx
 	fr      *Frame
 	name    string
+	iter    *Term
 }
 
 type discoverCtx struct {
@@ -334,8 +335,11 @@ func (x *Exec) globalValue(st *State, o *Obj) Value {
 
 // ---------- running a function
 
+var frameCtr = 0
+
 func (x *Exec) newFrame(fn *ssa.Function) *Frame {
-	return &Frame{Fn: fn, Regs: map[interface{}]Value{}}
+	frameCtr++
+	return &Frame{ID: frameCtr, Fn: fn, Regs: map[interface{}]Value{}}
 }
 
 func (x *Exec) execBlock(st *State, fr *Frame, b, prev *ssa.BasicBlock, lc *loopCtx, k cont) {
@@ -343,7 +347,7 @@ func (x *Exec) execBlock(st *State, fr *Frame, b, prev *ssa.BasicBlock, lc *loop
 	li := x.W.Loops(fn)
 	if ord, isHeader := li.Ord[b]; isHeader {
 		// arriving at a loop header
-		if lc != nil && lc.header == b && lc.fr == fr {
+		if lc != nil && lc.header == b && lc.fr.ID == fr.ID {
 			x.loopBackEdge(st, fr, b, prev, lc)
 			return
 		}
@@ -474,7 +478,7 @@ func (x *Exec) branch(st *State, fr *Frame, b *ssa.BasicBlock, cond *Term, lc *l
 }
 
 func cloneFrame(fr *Frame) *Frame {
-	n := &Frame{Fn: fr.Fn, Regs: make(map[interface{}]Value, len(fr.Regs)), Defers: append([]deferred(nil), fr.Defers...)}
+	n := &Frame{ID: fr.ID, Fn: fr.Fn, Regs: make(map[interface{}]Value, len(fr.Regs)), Defers: append([]deferred(nil), fr.Defers...)}
 	for k, v := range fr.Regs {
 		n.Regs[k] = v
 	}
@@ -792,7 +796,9 @@ func (x *Exec) wrap(t *Term, typ types.Type) *Term {
 // bounds: cheap interval analysis over Int terms
 var boundCache = map[*Term][2]*big.Int{}
 
-func (x *Exec) bounds(t *Term) (lo, hi *big.Int, ok bool) {
+func (x *Exec) bounds(t *Term) (lo, hi *big.Int, ok bool) { return termBounds(t) }
+
+func termBounds(t *Term) (lo, hi *big.Int, ok bool) {
 	if b, hit := boundCache[t]; hit {
 		return b[0], b[1], b[0] != nil
 	}
@@ -809,7 +815,7 @@ func (x *Exec) bounds(t *Term) (lo, hi *big.Int, ok bool) {
 	case "+":
 		lo, hi = new(big.Int), new(big.Int)
 		for _, a := range t.Args {
-			l, h, k := x.bounds(a)
+			l, h, k := termBounds(a)
 			if !k {
 				return nil, nil, false
 			}
@@ -818,14 +824,14 @@ func (x *Exec) bounds(t *Term) (lo, hi *big.Int, ok bool) {
 		}
 		return lo, hi, true
 	case "-":
-		l1, h1, k1 := x.bounds(t.Args[0])
-		l2, h2, k2 := x.bounds(t.Args[1])
+		l1, h1, k1 := termBounds(t.Args[0])
+		l2, h2, k2 := termBounds(t.Args[1])
 		if k1 && k2 {
 			return new(big.Int).Sub(l1, h2), new(big.Int).Sub(h1, l2), true
 		}
 	case "*":
-		l1, h1, k1 := x.bounds(t.Args[0])
-		l2, h2, k2 := x.bounds(t.Args[1])
+		l1, h1, k1 := termBounds(t.Args[0])
+		l2, h2, k2 := termBounds(t.Args[1])
 		if k1 && k2 {
 			c := []*big.Int{new(big.Int).Mul(l1, l2), new(big.Int).Mul(l1, h2), new(big.Int).Mul(h1, l2), new(big.Int).Mul(h1, h2)}
 			lo, hi = c[0], c[0]
@@ -844,13 +850,13 @@ func (x *Exec) bounds(t *Term) (lo, hi *big.Int, ok bool) {
 			return big.NewInt(0), new(big.Int).Sub(t.Args[1].Num, big.NewInt(1)), true
 		}
 	case "div":
-		l1, h1, k1 := x.bounds(t.Args[0])
+		l1, h1, k1 := termBounds(t.Args[0])
 		if k1 && t.Args[1].Op == "int" && t.Args[1].Num.Sign() > 0 && l1.Sign() >= 0 {
 			return new(big.Int).Div(l1, t.Args[1].Num), new(big.Int).Div(h1, t.Args[1].Num), true
 		}
 	case "ite":
-		l1, h1, k1 := x.bounds(t.Args[1])
-		l2, h2, k2 := x.bounds(t.Args[2])
+		l1, h1, k1 := termBounds(t.Args[1])
+		l2, h2, k2 := termBounds(t.Args[2])
 		if k1 && k2 {
 			lo, hi = l1, h1
 			if l2.Cmp(lo) < 0 {
@@ -1495,9 +1501,14 @@ func (x *Exec) makeSlice(st *State, fr *Frame, v *ssa.MakeSlice) Value {
 	reg := newObj(ObjRegion, elt, v.Name(), true)
 	if isByte(elt) && !x.arr {
 		// region content spans the whole capacity
-		c := Fresh("mk", SBytes)
-		st.Assume(Eq(c, Zeros(cp)))
-		st.Assume(Eq(App("len", SInt, c), cp))
+		var c *Term
+		if lo, _, ok := termBounds(cp); ok && lo.Sign() >= 0 {
+			c = Zeros(cp) // Len(c) is cp syntactically
+		} else {
+			c = Fresh("mk", SBytes)
+			st.Assume(Eq(c, Zeros(cp)))
+			st.Assume(Eq(App("len", SInt, c), cp))
+		}
 		st.Heap[reg] = &RegionVal{Bytes: c}
 		if ln == cp {
 			return &SliceVal{Reg: reg, Off: IntLit(0), Len: Len(c), Cap: Len(c), Nil: TFalse, Elt: elt}
